@@ -268,6 +268,15 @@ class Beh:
     def qbig(self, o, m, rel, form="rel"):
         self.add({"k": "qbig", "o": o, "m": m, "rel": list(rel), "form": form})
 
+    # long quad structures: `base` copies of the symbol f followed by the tail s (symbols 0..3)
+    def newbigq(self, kind, base, f, s):
+        o = self.fresh()
+        self.add({"k": "newbigq", "o": o, "kind": kind, "base": base, "f": f, "alpha": s.json_alpha(), "segs": s.json_segs()})
+        return o
+
+    def qbigq(self, o, m, c, rel, form="rel"):
+        self.add({"k": "qbigq", "o": o, "m": m, "c": c, "rel": list(rel), "form": form})
+
     def ithbig(self, o, m, rel=0, cnt=4):
         self.add({"k": "ithbig", "o": o, "m": m, "rel": rel, "cnt": cnt})
 
